@@ -616,11 +616,15 @@ func (g *c09DocGen) endTag(name string) {
 	g.maybeRegion("endtag", []string{">"})
 	w := ""
 	if g.r.Chance(1, 4) {
-		w = g.r.PickStr([]string{" ", "\t", "\n", " \r"})
+		w = g.r.PickStr([]string{" ", "\t", "\n", " \r", "\f", " \f"})
 	}
 	g.buf = append(g.buf, w...)
 	g.buf = append(g.buf, '>')
-	g.exp = append(g.exp, c09ExpTok{ty: html.EndTagToken, data: c09LowerASCII(g.buf[start:]), text: c09LowerASCII([]byte(name)), ctx: "endtag"})
+	e := c09ExpTok{ty: html.EndTagToken, data: c09LowerASCII(g.buf[start:]), text: c09LowerASCII([]byte(name)), ctx: "endtag"}
+	if strings.Contains(w, "\f") {
+		e.key = "c09-endtag:formfeed" // shiftEndTag trims ' ', \t, \n, \r from Text() but not \f
+	}
+	g.exp = append(g.exp, e)
 	g.lastTx = false
 }
 
